@@ -14,27 +14,48 @@ use std::collections::HashSet;
 use std::io::Cursor;
 use std::time::Instant;
 
-/// (symmetric key, archive nonce, ephemeral public key, wrapped key) of one fresh archive
-fn fresh_secrets() -> Result<[Vec<u8>; 4], String> {
-    let cfg = Cfg::new(L4::Encrypt).writer_config();
-    let key = cfg.encryption_key().to_vec();
-    let nonce = cfg.encryption_nonce().to_vec();
+/// (symmetric key, archive nonce, ephemeral public key, wrapped key) of one fresh archive. The way the writer
+/// is configured rotates with `i`: the four configuration routes of `Cfg::writer_config` (set_layers,
+/// default()+disable, new()+enable, default()+set+enable), layers encrypt / both, and `ArchiveWriter::new`.
+fn fresh_secrets(i: usize) -> Result<[Vec<u8>; 4], String> {
     let sink = SharedSink::new();
-    let mut w = ArchiveWriter::from_config(sink.clone(), cfg).map_err(|e| format!("{e:?}"))?;
+    let mut declared: Option<(Vec<u8>, Vec<u8>)> = None;
+    let mut w = if i % 5 == 4 {
+        ArchiveWriter::new(sink.clone(), &keys::publics(1)).map_err(|e| format!("{e:?}"))?
+    } else {
+        let cfg = Cfg::lvl(if i % 2 == 0 { L4::Encrypt } else { L4::Both }, (i % 4) as u32).writer_config();
+        declared = Some((cfg.encryption_key().to_vec(), cfg.encryption_nonce().to_vec()));
+        ArchiveWriter::from_config(sink.clone(), cfg).map_err(|e| format!("{e:?}"))?
+    };
     w.add_file("same", 4, &b"same"[..]).map_err(|e| format!("{e:?}"))?;
     w.finalize().map_err(|e| format!("{e:?}"))?;
     let a = sink.bytes();
     let hl = refstream::header_len(true, 1);
-    if a.len() < hl || a[hl - 8..hl] != nonce[..] {
-        return Err("header does not carry the configured nonce where FORMAT.md puts it".to_string());
+    // the secrets are taken from the archive itself (recipient 0 unwraps the key with the independent ECIES code)
+    let (key, nonce, _) = crate::crypt::params(&a, 0).ok_or("the archive header cannot be opened with the recipient's key by the independent implementation")?;
+    if let Some((k, n)) = declared {
+        if k != key || n != nonce {
+            return Err("the key / nonce announced by the configuration are not the ones of the archive".to_string());
+        }
     }
-    Ok([key, nonce, a[9..41].to_vec(), a[49..81].to_vec()])
+    if a.len() < hl || a[hl - 8..hl] != nonce[..] {
+        return Err("header does not carry the nonce where FORMAT.md puts it".to_string());
+    }
+    // relations inside one archive: the (public) nonce must not be a piece of the key, and no 8 bytes of the
+    // key may appear anywhere in the archive
+    if key.windows(8).any(|w| w == nonce) {
+        return Err("the archive nonce is a slice of the symmetric key".to_string());
+    }
+    if key.windows(8).any(|w| a.windows(8).any(|x| x == w)) {
+        return Err("8 bytes of the symmetric key appear in clear in the archive".to_string());
+    }
+    Ok([key.to_vec(), nonce.to_vec(), a[9..41].to_vec(), a[49..81].to_vec()])
 }
 
 fn freshness(rep: &mut Report, n_local: usize, n_procs: usize) {
     let mut all: Vec<(String, [Vec<u8>; 4])> = Vec::new();
     for i in 0..n_local {
-        match guard(fresh_secrets) {
+        match guard(|| fresh_secrets(i)) {
             Ok(Ok(s)) => all.push((format!("local#{i}"), s)),
             other => {
                 rep.violate(Violation { sig: json!({"kind": "cannot_create_archive"}), detail: format!("{other:?}"), replay: json!({"freshness": i}), weight: 0 });
@@ -53,6 +74,10 @@ fn freshness(rep: &mut Report, n_local: usize, n_procs: usize) {
         let txt = String::from_utf8_lossy(&out.stdout).to_string();
         let mut got = 0;
         for l in txt.lines() {
+            if let Some(e) = l.strip_prefix("FRESH-ERROR ") {
+                rep.violate(Violation { sig: json!({"kind": "cannot_create_archive"}), detail: format!("in a separate process: {e}"), replay: json!({"freshness": format!("process{p}")}), weight: 0 });
+                got += 1;
+            }
             if let Some(j) = l.strip_prefix("FRESH ") {
                 if let Ok(v) = serde_json::from_str::<Value>(j) {
                     let f = |k: &str| hex::decode(v[k].as_str().unwrap_or("")).unwrap_or_default();
@@ -255,12 +280,12 @@ fn cli_recipients(rep: &mut Report) {
 pub fn run(started: Instant) -> i32 {
     let thorough = infra::thorough();
     if infra::ctx().part.as_deref() == Some("fresh") {
-        for _ in 0..8 {
-            match fresh_secrets() {
+        for i in 0..10 {
+            match fresh_secrets(i) {
                 Ok([k, n, e, w]) => println!("FRESH {}", json!({"key": hex::encode(k), "nonce": hex::encode(n), "eph": hex::encode(e), "wrapped": hex::encode(w)})),
                 Err(e) => {
-                    eprintln!("{e}");
-                    return 2;
+                    // reported to the parent as a finding of this sub-process
+                    println!("FRESH-ERROR {e}");
                 }
             }
         }
